@@ -29,6 +29,37 @@ class Module(object):
         for p in parts:
             if p == "<locals>":
                 continue
+            if p.startswith("<lambda>#"):
+                # the k-th lambda expression (source order) of the enclosing function, not descending into nested definitions:
+                # verified as `def <lambda>(params): return <body>`
+                lams = []
+
+                def visit(n):
+                    for c in ast.iter_child_nodes(n):
+                        if isinstance(c, ast.Lambda):
+                            lams.append(c)
+                            continue
+                        if isinstance(c, (ast.FunctionDef, ast.ClassDef)):
+                            continue
+                        visit(c)
+                for stmt in body:
+                    if isinstance(stmt, (ast.FunctionDef, ast.ClassDef)):
+                        continue
+                    if isinstance(stmt, ast.Lambda):
+                        lams.append(stmt)
+                    else:
+                        visit(stmt)
+                lams.sort(key=lambda l: (l.lineno, l.col_offset))
+                k = int(p.split("#")[1])
+                if k >= len(lams):
+                    raise SourceError("%s: no lambda #%d (looking for %s)" % (self.rel, k, qualname))
+                lam = lams[k]
+                ret = ast.copy_location(ast.Return(value=lam.body), lam)
+                node = ast.copy_location(ast.FunctionDef(name="<lambda>", args=lam.args, body=[ret], decorator_list=[], returns=None,
+                                                         type_comment=None), lam)
+                ast.fix_missing_locations(node)
+                body = node.body
+                continue
             found = None
             for n in _walk_defs(body):
                 if isinstance(n, (ast.FunctionDef, ast.ClassDef)) and n.name == p:
